@@ -8,6 +8,10 @@ verus! {
 //@include types_error.rs
 //@include types_ast.rs
 //@include inc_reference.rs
+#[verifier::external_body]
+pub fn string_clone(s: &String) -> (r: String)
+    ensures r@ == s@,
+{ s.clone() }
 
 //~assume Range<usize>::clone returns an equal range (assume_specification through vstd's `cloned`)
 pub assume_specification<Idx: Clone> [<Range<Idx> as Clone>::clone] (r: &Range<Idx>) -> (c: Range<Idx>)
@@ -24,8 +28,37 @@ impl PartialEq for DataType {
         ensures r == (*self == *other),
     { unimplemented!() }
 }
-// R7 stand-in: LookupTable (HashMap based) is only passed through by the functions under contract
+// R7 stand-ins: LookupTable / LocalTable are HashMap based; the functions under contract only look names up
 pub struct LookupTable<'a> { pub opaque: &'a u8 }
+pub struct LocalTable { pub opaque: u8 }
+//@extract spl_frontend/src/table.rs :: struct TypeEntry
+//@ rewrite drop_derive
+//@end
+//@extract spl_frontend/src/table.rs :: struct ProcedureEntry
+//@ rewrite drop_derive
+//@end
+//@extract spl_frontend/src/table.rs :: struct VariableEntry
+//@ rewrite drop_derive
+//@end
+//@extract spl_frontend/src/table.rs :: enum Entry
+//@ rewrite drop_derive
+//@end
+/// what the symbol table answers for a name (local scope before global scope): abstract, the table is a HashMap
+pub uninterp spec fn lookup_spec<'a>(table: LookupTable<'a>, key: Seq<char>) -> Option<Entry<'a>>;
+//~assume LookupTable::lookup (HashMap, closures) is abstract: it returns `lookup_spec(table, key)`; which entries the table holds (scoping, declaration rules of table/build.rs) is not decided
+//@extract spl_frontend/src/table.rs :: impl<'a> LookupTable<'a> :: fn lookup
+//@ ret r
+//@ sig
+        ensures r == lookup_spec(*self, key@),
+//@ assume_body fn lookup
+//@end
+//~assume derived Clone for DataType is structural (R1)
+impl Clone for DataType {
+    #[verifier::external_body]
+    fn clone(&self) -> (r: Self)
+        ensures r == *self,
+    { unimplemented!() }
+}
 
 //@extract spl_frontend/src/error.rs :: impl From<SemanticErrorMessage> for ErrorMessage
 //@end
@@ -139,8 +172,56 @@ pub open spec fn with_info(e: Expression, i: AstInfo) -> Expression {
 // ---------------- specification, from the SPL typing rules (language definition), not from the code
 pub open spec fn arith(op: Operator) -> bool { op is Add || op is Sub || op is Mul || op is Div }
 /// type and effect of analysing a variable: needs the symbol table (HashMap) — abstract here, see assumptions
-pub uninterp spec fn named_type(v: Identifier, table: LookupTable) -> Option<DataType>;
-pub uninterp spec fn named_post(o: Identifier, n: Identifier, table: LookupTable) -> bool;
+/// Variable rules: a name that the symbol table binds to a variable or parameter has that entry's type and gets no diagnostic;
+/// a name bound to something else gets exactly one "is not a variable", an unbound name exactly one "undefined variable",
+/// naming the identifier, on the identifier's own token (the last token of its range); it then has no type.
+pub open spec fn named_type(v: Identifier, table: LookupTable) -> Option<DataType> {
+    match lookup_spec(table, v.value@) {
+        Some(Entry::Variable(e)) => e.data_type,
+        Some(Entry::Parameter(e)) => e.data_type,
+        _ => None,
+    }
+}
+pub open spec fn is_not_a_variable(m: ErrorMessage, name: Seq<char>) -> bool {
+    m matches ErrorMessage::SemanticErrorMessage(sm) && sm matches SemanticErrorMessage::NotAVariable(s) && s@ == name
+}
+pub open spec fn is_undefined_variable(m: ErrorMessage, name: Seq<char>) -> bool {
+    m matches ErrorMessage::SemanticErrorMessage(sm) && sm matches SemanticErrorMessage::UndefinedVariable(s) && s@ == name
+}
+pub open spec fn named_rule_ok(entry: Option<Entry>, id: Identifier, errs: Seq<SplError>) -> bool {
+    match entry {
+        Some(Entry::Variable(_)) => errs.len() == 0,
+        Some(Entry::Parameter(_)) => errs.len() == 0,
+        Some(_) => errs.len() == 1 && errs[0].0.end == id.info.range.end && errs[0].0.start == id.info.range.end - 1 && is_not_a_variable(errs[0].1, id.value@),
+        None => errs.len() == 1 && errs[0].0.end == id.info.range.end && errs[0].0.start == id.info.range.end - 1 && is_undefined_variable(errs[0].1, id.value@),
+    }
+}
+pub open spec fn named_post(o: Identifier, n: Identifier, table: LookupTable) -> bool {
+    n.value == o.value && n.info.errors@.len() >= o.info.errors@.len()
+    && appended(o.info, n.info, n.info.errors@.len() - o.info.errors@.len())
+    && named_rule_ok(lookup_spec(table, o.value@), o, tail(o.info, n.info))
+}
+/// data invariant: every identifier owns at least one token (Identifier::to_error asserts it); established by the parser
+pub open spec fn var_wf(v: Variable) -> bool
+    decreases v
+{
+    match v {
+        Variable::NamedVariable(n) => n.info.range.end > 0,
+        Variable::ArrayAccess(a) => var_wf(*a.array) && (match a.index { Some(ix) => expr_wf(ix.reference), None => true }),
+    }
+}
+pub open spec fn expr_wf(e: Expression) -> bool
+    decreases e
+{
+    match e {
+        Expression::Binary(b) => expr_wf(*b.lhs) && expr_wf(*b.rhs),
+        Expression::Bracketed(b) => expr_wf(*b.expr),
+        Expression::Unary(u) => expr_wf(*u.expr),
+        Expression::Variable(v) => var_wf(v),
+        Expression::IntLiteral(_) => true,
+        Expression::Error(_) => true,
+    }
+}
 pub open spec fn var_type(v: Variable, table: LookupTable) -> Option<DataType>
     decreases v
 {
@@ -280,8 +361,11 @@ pub open spec fn asg_post(a: Assignment, b: Assignment, table: LookupTable) -> b
     spec fn typ(&self, table: LookupTable) -> Option<DataType>;
     /// relation between the tree before and after analysis: exactly the prescribed diagnostics were appended
     spec fn post(o: Self, n: Self, table: LookupTable) -> bool;
+    /// data invariant of the input tree (every identifier owns a token)
+    spec fn pre(&self) -> bool;
 //@ ret t fn analyze
 //@ sig fn analyze
+        requires old(self).pre(),
         ensures
             Self::post(*old(self), *final(self), *table), //# AnalyzeExpression::analyze::exactly_the_prescribed_diagnostics
             t == old(self).typ(*table), //# AnalyzeExpression::analyze::type_of_expression
@@ -291,23 +375,66 @@ pub open spec fn asg_post(a: Assignment, b: Assignment, table: LookupTable) -> b
 : Sized
 //@ open
     spec fn post(o: Self, n: Self, table: LookupTable) -> bool;
+    spec fn pre(&self) -> bool;
 //@ sig fn analyze
+        requires old(self).pre(),
         ensures
             Self::post(*old(self), *final(self), *table), //# AnalyzeStatement::analyze::exactly_the_prescribed_diagnostics
 //@end
 
-//~assume `impl AnalyzeExpression for Variable`: its NamedVariable arm (symbol table lookup in a HashMap, `to_error` with a function argument) is abstract (named_type / named_post uninterpreted); its ArrayAccess arm dispatches to the verified impl
+//@extract spl_frontend/src/error.rs :: impl Identifier :: fn to_error
+//@ rewrite string_clone_self_value
+//@ ret e
+//@ sig
+        requires self.info.range.end > 0, forall|s: String| call_requires(msg, (s,)),
+        ensures
+            e.0.end == self.info.range.end && e.0.start == self.info.range.end - 1, //# Identifier::to_error::on_the_name_token
+            exists|s: String, t: T| s@ == self.value@ && call_ensures(msg, (s,), t) && call_ensures(<T as Into<ErrorMessage>>::into, (t,), e.1), //# Identifier::to_error::message_built_from_the_name
+//@end
 //@extract spl_frontend/src/table/semantic.rs :: impl AnalyzeExpression for Variable
+//@ rewrite eta_expand_variant_ctor
 //@ open
     open spec fn typ(&self, table: LookupTable) -> Option<DataType> { var_type(*self, table) }
     open spec fn post(o: Self, n: Self, table: LookupTable) -> bool { var_post(o, n, table) }
-//@ assume_body fn analyze
+    open spec fn pre(&self) -> bool { var_wf(*self) }
+//@ attr fn analyze
+    #[verifier::exec_allows_no_decreases_clause]
+//@ before "v.data_type.clone()"
+{ proof {
+                            let o = *old(self);
+                            if let Variable::NamedVariable(on) = o {
+                                assert(on.info.errors@.subrange(0, on.info.errors@.len() as int) =~= on.info.errors@);
+                                assert(tail(on.info, on.info) =~= Seq::<SplError>::empty());
+                            }
+                        }
+                        
+//@ after "v.data_type.clone()"
+ }
+//@ before "None\n                        }"
+proof {
+                                let o = *old(self);
+                                if let Variable::NamedVariable(on) = o {
+                                    assert(named.info.errors@.subrange(0, on.info.errors@.len() as int) =~= on.info.errors@);
+                                    assert(tail(on.info, named.info) =~= seq![named.info.errors@[on.info.errors@.len() as int]]);
+                                }
+                            }
+                            
+//@ before "None\n                }\n            }"
+proof {
+                        let o = *old(self);
+                        if let Variable::NamedVariable(on) = o {
+                            assert(named.info.errors@.subrange(0, on.info.errors@.len() as int) =~= on.info.errors@);
+                            assert(tail(on.info, named.info) =~= seq![named.info.errors@[on.info.errors@.len() as int]]);
+                        }
+                    }
+                    
 //@end
 //@extract spl_frontend/src/table/semantic.rs :: impl AnalyzeExpression for ArrayAccess
 //@ rewrite as_ref_on_mut_box_reference and_then_inline map_inline
 //@ open
     open spec fn typ(&self, table: LookupTable) -> Option<DataType> { var_type(Variable::ArrayAccess(*self), table) }
     open spec fn post(o: Self, n: Self, table: LookupTable) -> bool { var_post(Variable::ArrayAccess(o), Variable::ArrayAccess(n), table) }
+    open spec fn pre(&self) -> bool { var_wf(Variable::ArrayAccess(*self)) }
 //@ attr fn analyze
     #[verifier::exec_allows_no_decreases_clause]
 //@ before "if let Some(index) = &mut self.index {"
@@ -348,6 +475,7 @@ proof {
 //@ open
     open spec fn typ(&self, table: LookupTable) -> Option<DataType> { expr_type(*self, table) }
     open spec fn post(o: Self, n: Self, table: LookupTable) -> bool { expr_post(o, n, table) }
+    open spec fn pre(&self) -> bool { expr_wf(*self) }
 //@ attr fn analyze
     #[verifier::exec_allows_no_decreases_clause]
 //@end
@@ -355,6 +483,7 @@ proof {
 //@ open
     open spec fn typ(&self, table: LookupTable) -> Option<DataType> { Some(if arith(self.operator) { DataType::Int } else { DataType::Bool }) }
     open spec fn post(o: Self, n: Self, table: LookupTable) -> bool { bin_post(o, n, table) }
+    open spec fn pre(&self) -> bool { expr_wf(Expression::Binary(*self)) }
 //@ attr fn analyze
     #[verifier::exec_allows_no_decreases_clause]
 //@ before "// Type is always inferable from operator."
@@ -373,6 +502,7 @@ proof {
 //@extract spl_frontend/src/table/semantic.rs :: impl AnalyzeStatement for Assignment
 //@ open
     open spec fn post(o: Self, n: Self, table: LookupTable) -> bool { asg_post(o, n, table) }
+    open spec fn pre(&self) -> bool { stmt_wf(Statement::Assignment(*self)) }
 //@ before "\n    }\n}"
         proof {
             let o = *old(self);
@@ -410,6 +540,25 @@ pub open spec fn cond_post(ca: Option<Reference<Expression>>, cb: Option<Referen
 }
 /// effect of analysing a call statement (zip().enumerate(), symbol table): abstract
 pub uninterp spec fn call_post(o: CallStatement, n: CallStatement, table: LookupTable) -> bool;
+pub open spec fn opt_expr_wf(o: Option<Reference<Expression>>) -> bool {
+    match o { Some(e) => expr_wf(e.reference), None => true }
+}
+pub open spec fn stmt_wf(s: Statement) -> bool
+    decreases s
+{
+    match s {
+        Statement::Empty(_) => true,
+        Statement::Error(_) => true,
+        Statement::Assignment(a) => var_wf(a.variable) && opt_expr_wf(a.expr),
+        Statement::Call(c) => c.name.info.range.end > 0 && forall|i: int| 0 <= i < c.arguments@.len() ==> expr_wf((#[trigger] c.arguments@[i]).reference),
+        Statement::If(i) => opt_expr_wf(i.condition)
+            && (match i.if_branch { Some(b) => stmt_wf(b.reference), None => true })
+            && (match i.else_branch { Some(b) => stmt_wf(b.reference), None => true }),
+        Statement::While(w) => opt_expr_wf(w.condition)
+            && (match w.statement { Some(b) => stmt_wf(b.reference), None => true }),
+        Statement::Block(b) => forall|i: int| 0 <= i < b.statements@.len() ==> stmt_wf((#[trigger] b.statements@[i]).reference),
+    }
+}
 pub open spec fn stmt_post(o: Statement, n: Statement, table: LookupTable) -> bool
     decreases o
 {
@@ -453,6 +602,7 @@ pub open spec fn stmt_post(o: Statement, n: Statement, table: LookupTable) -> bo
 //@extract spl_frontend/src/table/semantic.rs :: impl AnalyzeStatement for Statement
 //@ open
     open spec fn post(o: Self, n: Self, table: LookupTable) -> bool { stmt_post(o, n, table) }
+    open spec fn pre(&self) -> bool { stmt_wf(*self) }
 //@ attr fn analyze
     #[verifier::exec_allows_no_decreases_clause]
 //@end
@@ -460,18 +610,21 @@ pub open spec fn stmt_post(o: Statement, n: Statement, table: LookupTable) -> bo
 //@extract spl_frontend/src/table/semantic.rs :: impl AnalyzeStatement for BlockStatement
 //@ open
     open spec fn post(o: Self, n: Self, table: LookupTable) -> bool { stmt_post(Statement::Block(o), Statement::Block(n), table) }
+    open spec fn pre(&self) -> bool { stmt_wf(Statement::Block(*self)) }
 //@ assume_body fn analyze
 //@end
 //~assume `impl AnalyzeStatement for CallStatement` (zip().enumerate(), symbol table) is abstract: call_post is uninterpreted
 //@extract spl_frontend/src/table/semantic.rs :: impl AnalyzeStatement for CallStatement
 //@ open
     open spec fn post(o: Self, n: Self, table: LookupTable) -> bool { call_post(o, n, table) }
+    open spec fn pre(&self) -> bool { stmt_wf(Statement::Call(*self)) }
 //@ assume_body fn analyze
 //@end
 //@extract spl_frontend/src/table/semantic.rs :: impl AnalyzeStatement for IfStatement
 //@ rewrite as_ref_on_mut_reference
 //@ open
     open spec fn post(o: Self, n: Self, table: LookupTable) -> bool { stmt_post(Statement::If(o), Statement::If(n), table) }
+    open spec fn pre(&self) -> bool { stmt_wf(Statement::If(*self)) }
 //@ attr fn analyze
     #[verifier::exec_allows_no_decreases_clause]
 //@ before "if let Some(condition) = &mut self.condition {"
@@ -501,6 +654,7 @@ proof {
 //@ rewrite as_ref_on_mut_reference
 //@ open
     open spec fn post(o: Self, n: Self, table: LookupTable) -> bool { stmt_post(Statement::While(o), Statement::While(n), table) }
+    open spec fn pre(&self) -> bool { stmt_wf(Statement::While(*self)) }
 //@ attr fn analyze
     #[verifier::exec_allows_no_decreases_clause]
 //@ before "if let Some(condition) = &mut self.condition {"
@@ -527,13 +681,6 @@ proof {
         
 //@end
 // ---------- call rules, per argument: the body of the argument loop of CallStatement::analyze (R6: lifted loop body)
-//@extract spl_frontend/src/table.rs :: struct VariableEntry
-//@ rewrite drop_derive
-//@end
-#[verifier::external_body]
-pub fn string_clone(s: &String) -> (r: String)
-    ensures r@ == s@,
-{ s.clone() }
 pub fn datatype_eq(a: &DataType, b: &DataType) -> (r: bool)
     ensures r == (*a == *b),
 { *a == *b }
@@ -569,7 +716,7 @@ pub open spec fn call_arg_mid(a: Expression, m1: Expression, m2: Expression, b: 
 //@ rewrite self_name_clone_to_callee ref_ne
 //@ lift pub fn call_argument_rule(i: usize, arg: &mut Expression, param: &VariableEntry, callee: &Identifier, table: &LookupTable)
 //@ sig
-    requires i < usize::MAX,
+    requires i < usize::MAX, expr_wf(*old(arg)), callee.info.range.end > 0,
     ensures
         exists|m1: Expression, m2: Expression| #[trigger] wit2(m1, m2) && call_arg_mid(*old(arg), m1, m2, *final(arg), *param, callee.value@, i + 1, *table), //# call_argument_rule::reference_and_type_rules_per_argument
 //@ before "let arg_type = arg.analyze(table);"
